@@ -84,6 +84,13 @@ def c18_row(idx, d, e):
     elif api == "array_roundtrip":
         body = "%s let g = %s::from_array(src); let n0 = %s::len() as i64; let s1 = %s; let back: [%s; %d] = g.into_array(); [0, n0, s1, back.len() as i64, %s, -1]" % (
             src, G, G, sum_slice(e, "g.as_slice()"), T, n, sum_slice(e, "&back"))
+    elif api == "const_transmute":
+        # the crate's public const transmute between equally sized types of DIFFERENT alignment ([u8; 4n] -> [u32; n]);
+        # the bytes are all 1, so every u32 is 0x01010101 = 16843009 whatever the byte order (element type ignored)
+        if e != "u8" or n == 0 or n > 8:
+            return None
+        body = ("let src: [u8; %d] = [1u8; %d]; let w: [u32; %d] = unsafe { generic_array::const_transmute::<[u8; %d], [u32; %d]>(src) }; "
+                "let mut acc = 0i64; let mut i = 0usize; while i < w.len() { acc += (w[i] / 16843009) as i64; i += 1; } [0, w.len() as i64, acc, 0, 0, -1]") % (4 * n, 4 * n, n, 4 * n, n)
     elif api == "uninit_assume_init":
         body = ("let mut u = %s::uninit(); { let s = u.as_mut_slice(); let mut i = 0usize; while i < s.len() { s[i] = core::mem::MaybeUninit::new(%s); i += 1; } } "
                 "let g = unsafe { GenericArray::assume_init(u) }; [0, g.as_slice().len() as i64, %s, 0, 0, -1]") % (G, ETY[e]["mk"].format(i="i + 1"), sum_slice(e, "g.as_slice()"))
@@ -207,5 +214,18 @@ mod hyg {
     }
 }
 """
+    # items of the CALLER named like helper items a macro might define for itself (items in a macro expansion are not
+    # hygienic): the element expression must still mean the caller's item
+    names = ["LEN", "N", "LENGTH", "SIZE", "COUNT", "INPUT_LENGTH", "K", "M", "X", "ARRAY", "UNIT"]
+    hyg2 = "\nmod hyg_items {\n    #![allow(dead_code, non_upper_case_globals)]\n    use generic_array::typenum::*;\n    use generic_array::{arr, box_arr};\n    use super::rec;\n"
+    hyg2 += "".join("    const %s: i64 = 1007;\n" % nm for nm in names)
+    hyg2 += "    fn do_transmute() -> i64 { 1007 }\n    fn from_vec_helper() -> i64 { 1007 }\n    pub fn run() {\n"
+    for nm in names + ["do_transmute()", "from_vec_helper()"]:
+        hyg2 += "        { let a = arr![%s; U3]; let b = box_arr![%s; U3]; rec(\"const_repeat\", 3, &[], a.as_slice(), a.len(), &[], b.as_slice(), b.len()); }\n" % (nm, nm)
+        hyg2 += "        { let a = arr![%s; 3]; let b = box_arr![%s; 3]; rec(\"const_repeat\", 3, &[], a.as_slice(), a.len(), &[], b.as_slice(), b.len()); }\n" % (nm, nm)
+        hyg2 += "        { let a = arr![%s, %s]; let b = box_arr![%s, %s]; rec(\"const_repeat\", 2, &[], a.as_slice(), a.len(), &[], b.as_slice(), b.len()); }\n" % (nm, nm, nm, nm)
+    hyg2 += "    }\n}\n"
+    hyg += hyg2
     main.append("    hyg::run();")
+    main.append("    hyg_items::run();")
     return "\n".join(out) + "\n" + "\n".join(consts) + hyg + "\nfn main() {\n" + "\n".join(main) + "\n}\n"
